@@ -38,12 +38,35 @@ def cols_of(w, handles, order):
     return [[num(lo[i]), num(up[i]), num(costs[i])] for i in range(len(order))]
 
 
+def run_pair(inst):
+    """two wrappers alive at the same time, their histories interleaved as inst['order'] says ('a'/'b'): each wrapper's own
+    calls and observations form one record (ops, obs) - to be validated as an ordinary single-wrapper history."""
+    m = _sw()
+    st = {"a": {"w": m.SolverWrapper(threads=1), "handles": {}, "order": [], "obs": [], "i": 0, "ops": inst["ops_a"]},
+          "b": {"w": m.SolverWrapper(threads=1), "handles": {}, "order": [], "obs": [], "i": 0, "ops": inst["ops_b"]}}
+    for who in inst["order"]:
+        x = st[who]
+        op = x["ops"][x["i"]]
+        x["i"] += 1
+        x["obs"].append(_step(x["w"], x["handles"], x["order"], op))
+    return {"id": inst["id"], "pair": True,
+            "a": {"id": inst["id"] * 10 + 1, "ops": inst["ops_a"], "obs": st["a"]["obs"]},
+            "b": {"id": inst["id"] * 10 + 2, "ops": inst["ops_b"], "obs": st["b"]["obs"]}}
+
+
 def run_history(inst):
     m = _sw()
     out = dict(inst)
     w = m.SolverWrapper(threads=1)
     handles, order, obs = {}, [], []
     for op in inst["ops"]:
+        obs.append(_step(w, handles, order, op))
+    out["obs"] = obs
+    return out
+
+
+def _step(w, handles, order, op):
+    if True:
         o = {"exc": "none", "status": "none", "objval": NONE, "keys": [], "vals": []}
         try:
             kind = op[0]
@@ -79,9 +102,7 @@ def run_history(inst):
         except BaseException:
             o["sense"] = "unknown"
         o["order"] = list(order)
-        obs.append(o)
-    out["obs"] = obs
-    return out
+        return o
 
 
 def lp_rows(w):
@@ -176,6 +197,8 @@ def run_gadget(inst):
 
 
 def run_instance(inst):
+    if "ops_a" in inst:
+        return run_pair(inst)
     if "ops" in inst:
         return run_history(inst)
     return run_gadget(inst)
